@@ -9,9 +9,13 @@ package v2
 import (
 	"bytes"
 	"encoding/binary"
+	"io"
+
+	"github.com/libp2p/go-msgio"
 
 	blocks "github.com/ipfs/go-block-format"
 	"github.com/ipfs/go-cid"
+	"github.com/ipld/go-ipld-prime/codec/dagcbor"
 	"github.com/ipld/go-ipld-prime/datamodel"
 	cidlink "github.com/ipld/go-ipld-prime/linking/cid"
 	"github.com/ipld/go-ipld-prime/node/basicnode"
@@ -47,12 +51,22 @@ func wrid(i int) graphsync.RequestID {
 var extNames = []graphsync.ExtensionName{"ext/a", "ext/b"}
 
 func genExts(tag string) []graphsync.ExtensionData {
-	n := verifrt.Choose(tag+"-next", 3)
+	n := verifrt.Choose(tag+"-next", verifrt.Param("EXTS", 2)+1)
 	var out []graphsync.ExtensionData
 	for i := 0; i < n; i++ {
 		var data datamodel.Node
-		if verifrt.Choose(tag+"-extnil", 2) == 1 {
+		switch verifrt.Choose(tag+"-extkind", verifrt.Param("EXTKINDS", 2)) {
+		case 0: // no payload
+		case 1:
 			data = basicnode.NewString("payload-" + string(extNames[i]))
+		case 2:
+			data = datamodel.Null
+		case 3: // nested: a list holding an int (symbolic), a string and a null
+			data = fluentList(basicnode.NewInt(verifrt.I64(tag+"-ext-int")), basicnode.NewString("s"), datamodel.Null)
+		case 4: // nested: a map holding a list, bytes and a bool
+			// (keys in DAG-CBOR's canonical order: the encoder sorts map keys, and
+			// DeepEqual is order-sensitive; entry order is not message content)
+			data = fluentMap("b", basicnode.NewBytes([]byte{0, 255}), "l", fluentList(basicnode.NewInt(7)), "t", basicnode.NewBool(true))
 		}
 		out = append(out, graphsync.ExtensionData{Name: extNames[i], Data: data})
 	}
@@ -65,12 +79,34 @@ func sameExts(tag string, want []graphsync.ExtensionData, got message.MessagePar
 	for _, e := range want {
 		d, ok := got.Extension(e.Name)
 		verifrt.Assert(ok, "C11 "+tag+": extension lost by the round trip")
-		if e.Data == nil {
-			verifrt.Assert(d == nil, "C11 "+tag+": nil extension payload became non-nil")
+		if e.Data == nil || e.Data.IsNull() {
+			// an absent payload and a null payload are both carried as null
+			verifrt.Assert(d == nil || d.IsNull(), "C11 "+tag+": absent or null extension payload became a value")
 		} else {
 			verifrt.Assert(d != nil && datamodel.DeepEqual(d, e.Data), "C11 "+tag+": extension payload changed")
 		}
 	}
+}
+
+func fluentList(items ...datamodel.Node) datamodel.Node {
+	nb := basicnode.Prototype.List.NewBuilder()
+	la, _ := nb.BeginList(int64(len(items)))
+	for _, it := range items {
+		_ = la.AssembleValue().AssignNode(it)
+	}
+	_ = la.Finish()
+	return nb.Build()
+}
+
+func fluentMap(kv ...any) datamodel.Node {
+	nb := basicnode.Prototype.Map.NewBuilder()
+	ma, _ := nb.BeginMap(int64(len(kv) / 2))
+	for i := 0; i+1 < len(kv); i += 2 {
+		_ = ma.AssembleKey().AssignString(kv[i].(string))
+		_ = ma.AssembleValue().AssignNode(kv[i+1].(datamodel.Node))
+	}
+	_ = ma.Finish()
+	return nb.Build()
 }
 
 type wreq struct {
@@ -110,7 +146,12 @@ func VerifWire_RoundTrip() {
 			if verifrt.Choose("hassel", 2) == 1 {
 				r.sel = basicnode.NewString("selector")
 			}
-			r.prio = graphsync.Priority(verifrt.I32("priority"))
+			if verifrt.Param("CONCRETE", 0) == 1 {
+				prios := []graphsync.Priority{0, 1, -1, 2147483647, -2147483648, 65536}
+				r.prio = prios[verifrt.Choose("priority-value", len(prios))]
+			} else {
+				r.prio = graphsync.Priority(verifrt.I32("priority"))
+			}
 			r.exts = genExts("req")
 			requests[r.id] = message.NewRequest(r.id, r.root, r.sel, r.prio, r.exts...)
 		case 1:
@@ -129,7 +170,18 @@ func VerifWire_RoundTrip() {
 	responses := map[graphsync.RequestID]message.GraphSyncResponse{}
 	for i := 0; i < nresp; i++ {
 		r := wresp{id: wrid(10 + i)}
-		r.status = graphsync.ResponseStatusCode(verifrt.I32("status"))
+		if verifrt.Param("CONCRETE", 0) == 1 {
+			codes := []graphsync.ResponseStatusCode{10, 11, 12, 13, 14, 15, 20, 21, 30, 31, 32, 33, 34, 35}
+			r.status = codes[verifrt.Choose("status-value", len(codes))]
+		} else {
+			r.status = graphsync.ResponseStatusCode(verifrt.I32("status"))
+		}
+		if verifrt.Param("BYTES", 0) == 1 && verifrt.Param("CONCRETE", 0) == 0 {
+			// "any defined status": the byte encoder refuses values outside the
+			// schema's enumeration, which the property does not cover
+			st := r.status
+			verifrt.Assume((st >= 10 && st <= 15) || st == 20 || st == 21 || (st >= 30 && st <= 35))
+		}
 		nmd := verifrt.Choose("nmd", verifrt.Param("MD", 2)+1)
 		for j := 0; j < nmd; j++ {
 			acts := []graphsync.LinkAction{graphsync.LinkActionPresent, graphsync.LinkActionDuplicateNotSent, graphsync.LinkActionMissing}
@@ -156,10 +208,36 @@ func VerifWire_RoundTrip() {
 	m := message.NewMessage(requests, responses, blks)
 
 	mh := NewMessageHandler()
-	ib, err := mh.toIPLD(m)
-	verifrt.Assert(err == nil && ib != nil, "C11 toIPLD failed on a well-formed message")
-	m2, err := mh.fromIPLD(ib)
-	verifrt.Assert(err == nil, "C11 fromIPLD failed on the encoding of a well-formed message")
+	var m2 message.GraphSyncMessage
+	if verifrt.Param("BYTES", 0) == 1 {
+		// the real byte codec: ToNet (bindnode + DAG-CBOR + varint length
+		// prefix) into a stream, optionally behind another message, and back
+		// through the msgio reader and FromMsgReader
+		var buf bytes.Buffer
+		second := verifrt.Choose("second-message-on-stream", 2) == 1
+		if second {
+			first := message.NewMessage(map[graphsync.RequestID]message.GraphSyncRequest{wrid(90): message.NewCancelRequest(wrid(90))}, nil, nil)
+			verifrt.Assert(mh.ToNet("p", first, &buf) == nil, "C11 ToNet failed on a well-formed message")
+		}
+		err := mh.ToNet("p", m, &buf)
+		verifrt.Assert(err == nil, "C11 ToNet failed on a well-formed message")
+		verifrt.Eventf("stream bytes=%d", buf.Len())
+		rd := msgio.NewVarintReaderSize(&buf, 4<<20)
+		if second {
+			f, err := mh.FromMsgReader("p", rd)
+			verifrt.Assert(err == nil && len(f.Requests()) == 1 && f.Requests()[0].ID() == wrid(90), "C11 first message of a stream does not decode back")
+		}
+		m2, err = mh.FromMsgReader("p", rd)
+		verifrt.Assert(err == nil, "C11 FromMsgReader failed on the encoding of a well-formed message")
+		_, err = mh.FromMsgReader("p", rd)
+		verifrt.Assert(err == io.EOF, "C11 stream does not end after its last message")
+		verifrt.Cover("bytes")
+	} else {
+		ib, err := mh.toIPLD(m)
+		verifrt.Assert(err == nil && ib != nil, "C11 toIPLD failed on a well-formed message")
+		m2, err = mh.fromIPLD(ib)
+		verifrt.Assert(err == nil, "C11 fromIPLD failed on the encoding of a well-formed message")
+	}
 
 	got := map[graphsync.RequestID]message.GraphSyncRequest{}
 	for _, r := range m2.Requests() {
@@ -238,22 +316,37 @@ func VerifWire_Uvarint() {
 }
 
 // VerifWire_Extensions: extension payload codecs decode what was encoded.
+// viaBytes pushes an extension payload through the real DAG-CBOR byte codec.
+func viaBytes(n datamodel.Node) datamodel.Node {
+	if verifrt.Param("BYTES", 0) == 0 {
+		return n
+	}
+	var buf bytes.Buffer
+	err := dagcbor.Encode(n, &buf)
+	verifrt.Assert(err == nil, "C11 extension payload does not encode")
+	nb := basicnode.Prototype.Any.NewBuilder()
+	err = dagcbor.Decode(nb, &buf)
+	verifrt.Assert(err == nil, "C11 extension payload bytes do not decode")
+	verifrt.Cover("payload-via-bytes")
+	return nb.Build()
+}
+
 func VerifWire_Extensions() {
 	n := verifrt.I64("skip")
-	got, err := donotsendfirstblocks.DecodeDoNotSendFirstBlocks(donotsendfirstblocks.EncodeDoNotSendFirstBlocks(n))
+	got, err := donotsendfirstblocks.DecodeDoNotSendFirstBlocks(viaBytes(donotsendfirstblocks.EncodeDoNotSendFirstBlocks(n)))
 	verifrt.Assert(err == nil && got == n, "C11 do-not-send-first-blocks payload does not round-trip")
 	keys := []string{"", "k", "a/longer-key"}
 	k := keys[verifrt.Choose("key", len(keys))]
 	kn, err := dedupkey.EncodeDedupKey(k)
 	verifrt.Assert(err == nil, "C11 dedup key encode failed")
-	gk, err := dedupkey.DecodeDedupKey(kn)
+	gk, err := dedupkey.DecodeDedupKey(viaBytes(kn))
 	verifrt.Assert(err == nil && gk == k, "C11 dedup-by-key payload does not round-trip")
 	ncid := verifrt.Choose("ncids", verifrt.Param("CIDS", 3)+1)
 	set := cid.NewSet()
 	for i := 0; i < ncid; i++ {
 		set.Add(wcid(0x55, i))
 	}
-	gs, err := cidset.DecodeCidSet(cidset.EncodeCidSet(set))
+	gs, err := cidset.DecodeCidSet(viaBytes(cidset.EncodeCidSet(set)))
 	verifrt.Assert(err == nil && gs.Len() == ncid, "C11 do-not-send-cids payload changes size")
 	for i := 0; i < ncid; i++ {
 		verifrt.Assert(gs.Has(wcid(0x55, i)), "C11 do-not-send-cids payload loses a CID")
